@@ -42,7 +42,42 @@ type c08World struct {
 	iw      *ixWorld
 }
 
-var c08Attrs = map[string]int{"camliNodeType": 1, "tag": 2, "title": 3, "dateCreated": 4, "camliDefVis": 5}
+var c08Attrs = map[string]int{"camliNodeType": 1, "tag": 2, "title": 3, "dateCreated": 4, "camliDefVis": 5, "camliMember": 6, "camliPath:a": 7, "camliPath:b": 8}
+
+// the live edges of a permanode: its current camliMember / camliPath:* values that name a blob of the world
+func (cw *c08World) kids(b *c08blob) []*c08blob {
+	var out []*c08blob
+	var names []string
+	for a := range b.attrs {
+		if a == "camliMember" || strings.HasPrefix(a, "camliPath:") {
+			names = append(names, a)
+		}
+	}
+	sort.Strings(names)
+	for _, a := range names {
+		for _, v := range b.attrs[a] {
+			for _, x := range cw.blobs {
+				if x.ref.String() == v {
+					out = append(out, x)
+				}
+			}
+		}
+	}
+	return out
+}
+
+func (cw *c08World) parents(b *c08blob) []*c08blob {
+	var out []*c08blob
+	for _, p := range cw.blobs {
+		for _, k := range cw.kids(p) {
+			if k == b {
+				out = append(out, p)
+				break
+			}
+		}
+	}
+	return out
+}
 
 func (cw *c08World) val(v string) int {
 	if t, ok := cw.vals[v]; ok {
@@ -73,52 +108,53 @@ func buildC08World(c *ctx, w *world) *c08World {
 		}
 		return base.Add(time.Duration(tick) * time.Second)
 	}
+	claimOn := func(p *c08blob, si int, kind, attr, v string) {
+		var bb *schema.Builder
+		switch kind {
+		case "set":
+			bb = schema.NewSetAttributeClaim(p.ref, attr, v)
+		case "add":
+			bb = schema.NewAddAttributeClaim(p.ref, attr, v)
+		default:
+			bb = schema.NewDelAttributeClaim(p.ref, attr, v)
+		}
+		t := now()
+		cb := w.claim(si, bb, t)
+		if have[cb.BlobRef()] {
+			return // the very same claim blob again (tied time): nothing new
+		}
+		add(cb, "claim")
+		if t.After(p.mtime) {
+			p.mtime = t
+		}
+		if attr == "camliNodeType" && kind != "del" {
+			p.ntypes[v] = true
+		}
+		if si != 0 {
+			return
+		}
+		switch kind {
+		case "set":
+			p.attrs[attr] = []string{v}
+		case "add":
+			p.attrs[attr] = append(p.attrs[attr], v)
+		default:
+			var keep []string
+			for _, x := range p.attrs[attr] {
+				if v != "" && x != v {
+					keep = append(keep, x)
+				}
+			}
+			p.attrs[attr] = keep
+		}
+	}
 	npn := 4 + c.rng.Intn(9)
 	for i := 0; i < npn; i++ {
 		p := add(w.permanode(0), "permanode")
 		if c.rng.Intn(8) == 0 {
 			continue // no claims at all
 		}
-		claim := func(si int, kind, attr, v string) {
-			var bb *schema.Builder
-			switch kind {
-			case "set":
-				bb = schema.NewSetAttributeClaim(p.ref, attr, v)
-			case "add":
-				bb = schema.NewAddAttributeClaim(p.ref, attr, v)
-			default:
-				bb = schema.NewDelAttributeClaim(p.ref, attr, v)
-			}
-			t := now()
-			cb := w.claim(si, bb, t)
-			if have[cb.BlobRef()] {
-				return // the very same claim blob again (tied time): nothing new
-			}
-			add(cb, "claim")
-			if t.After(p.mtime) {
-				p.mtime = t
-			}
-			if attr == "camliNodeType" && kind != "del" {
-				p.ntypes[v] = true
-			}
-			if si != 0 {
-				return
-			}
-			switch kind {
-			case "set":
-				p.attrs[attr] = []string{v}
-			case "add":
-				p.attrs[attr] = append(p.attrs[attr], v)
-			default:
-				var keep []string
-				for _, x := range p.attrs[attr] {
-					if v != "" && x != v {
-						keep = append(keep, x)
-					}
-				}
-				p.attrs[attr] = keep
-			}
-		}
+		claim := func(si int, kind, attr, v string) { claimOn(p, si, kind, attr, v) }
 		tags := []string{"x", "y", "z"}
 		claim(0, "set", "tag", tags[c.rng.Intn(3)])
 		if c.rng.Intn(3) == 0 {
@@ -155,6 +191,48 @@ func buildC08World(c *ctx, w *world) *c08World {
 		if c.rng.Intn(8) == 0 {
 			claim(0, "set", "camliDefVis", "hide")
 			p.hidden = true
+		}
+	}
+	// edges between permanodes: members and named paths, some re-pointed (a stale edge, then possibly a live one between
+	// the same two permanodes, in either order), some removed again
+	var pns []*c08blob
+	for _, b := range cw.blobs {
+		if b.ctype == "permanode" {
+			pns = append(pns, b)
+		}
+	}
+	for i := 0; i < len(pns)/2+c.rng.Intn(3); i++ {
+		p, q := pns[c.rng.Intn(len(pns))], pns[c.rng.Intn(len(pns))]
+		if p == q {
+			continue
+		}
+		switch c.rng.Intn(7) {
+		case 0, 1:
+			claimOn(p, 0, "add", "camliMember", q.ref.String())
+		case 2:
+			claimOn(p, 0, "set", "camliPath:a", q.ref.String())
+		case 3: // a path re-pointed elsewhere (the edge to q goes stale), then q a member after all
+			r := pns[c.rng.Intn(len(pns))]
+			claimOn(p, 0, "set", "camliPath:a", q.ref.String())
+			if r != p {
+				claimOn(p, 0, "set", "camliPath:a", r.ref.String())
+			}
+			claimOn(p, 0, "add", "camliMember", q.ref.String())
+		case 4: // the other order: a live member edge first, then a path that goes stale
+			r := pns[c.rng.Intn(len(pns))]
+			claimOn(p, 0, "add", "camliMember", q.ref.String())
+			claimOn(p, 0, "set", "camliPath:b", q.ref.String())
+			if r != p {
+				claimOn(p, 0, "set", "camliPath:b", r.ref.String())
+			}
+		case 5: // a member added and removed again
+			claimOn(p, 0, "add", "camliMember", q.ref.String())
+			claimOn(p, 0, "del", "camliMember", q.ref.String())
+		default:
+			// (edges claimed by another signer are left out: the relation matcher counts them - PermanodeHasAttrValue has no
+			// signer filter - while attribute constraints look at the owner's claims only; which of the two is meant is not
+			// documented, so the worlds do not depend on it)
+			claimOn(p, 0, "set", "camliPath:b", q.ref.String())
 		}
 	}
 	for _, p := range cw.blobs {
@@ -283,8 +361,12 @@ func (cw *c08World) coq() string {
 				wh = i + 1
 			}
 		}
-		bs = append(bs, fmt.Sprintf("mkm %d %s %d %s %s %s %s %s %d", b.rank, c08ctype(b.ctype), b.size, qb(b.deleted),
-			qopt(!b.mtime.IsZero(), qz(b.mtime.UnixNano())), qopt(!b.ctime.IsZero(), qz(b.ctime.UnixNano())), qlist(attrs), qlist(nts), wh))
+		var kids []string
+		for _, k := range cw.kids(b) {
+			kids = append(kids, fmt.Sprint(k.rank))
+		}
+		bs = append(bs, fmt.Sprintf("mkm %d %s %d %s %s %s %s %s %d %s", b.rank, c08ctype(b.ctype), b.size, qb(b.deleted),
+			qopt(!b.mtime.IsZero(), qz(b.mtime.UnixNano())), qopt(!b.ctime.IsZero(), qz(b.ctime.UnixNano())), qlist(attrs), qlist(nts), wh, qlist(kids)))
 	}
 	return "[" + strings.Join(bs, ";\n   ") + "]"
 }
@@ -309,6 +391,8 @@ type qc struct {
 	refis                          int    // rank, len+1 = a ref not in the world
 	prefix                         string // proper prefix of blobref strings
 	absentRef                      blob.Ref
+	rel                            *qc // PermanodeConstraint{Relation}: the Any / All sub-constraint
+	relParent, relAll              bool
 }
 
 func (q *qc) hasVM() bool { return q.vmEquals != "" || q.vmContains != "" || q.vmPrefix != "" }
@@ -322,11 +406,15 @@ func (q *qc) vmMatches(v string) bool {
 	return (e == "" || v == e) && (c == "" || strings.Contains(v, c)) && (p == "" || strings.HasPrefix(v, p))
 }
 
+func (q *qc) isEmpty() bool {
+	return q.op == "" && !q.anything && q.camli == "" && !q.anycamli && !q.perm && q.whole == 0 && q.fileName == "" && q.size == nil && q.refis == 0 && q.prefix == ""
+}
+
 func (q *qc) rich() bool {
 	if q == nil {
 		return false
 	}
-	return q.skipHidden || q.numValMin > 0 || q.fileName != "" || q.a.rich() || q.b.rich()
+	return q.skipHidden || q.numValMin > 0 || q.fileName != "" || q.a.rich() || q.b.rich() || q.rel.rich()
 }
 
 func (q *qc) String() string {
@@ -361,6 +449,9 @@ func (q *qc) String() string {
 		}
 		if q.numValMin > 0 {
 			s += fmt.Sprintf(" numValue>=%d", q.numValMin)
+		}
+		if q.rel != nil {
+			s += fmt.Sprintf(" relation{%s %s %s}", map[bool]string{true: "parent", false: "child"}[q.relParent], map[bool]string{true: "all", false: "any"}[q.relAll], q.rel.String())
 		}
 		f = append(f, s+"}")
 	}
@@ -397,6 +488,15 @@ func (q *qc) toSearch(cw *c08World) *search.Constraint {
 		}
 		if q.hasVM() {
 			pc.ValueMatches = &search.StringConstraint{Equals: q.vmEquals, Contains: q.vmContains, HasPrefix: q.vmPrefix, CaseInsensitive: q.vmFold}
+		}
+		if q.rel != nil {
+			rc := &search.RelationConstraint{Relation: map[bool]string{true: "parent", false: "child"}[q.relParent]}
+			if q.relAll {
+				rc.All = q.rel.toSearch(cw)
+			} else {
+				rc.Any = q.rel.toSearch(cw)
+			}
+			pc.Relation = rc
 		}
 		sc.Permanode = pc
 	}
@@ -466,11 +566,15 @@ func (q *qc) coq(cw *c08World) string {
 		}
 		prefix = "(Some " + qlist(rs) + ")"
 	}
-	return fmt.Sprintf("(Node %s %s %s %s %s %d %s %d %s)", logical, qb(q.anything), c08ctype(q.camli), qb(q.anycamli), perm, q.whole, size, q.refis, prefix)
+	rel := "None"
+	if q.rel != nil {
+		rel = fmt.Sprintf("(Some (%s, %s, %s))", qb(q.relParent), qb(q.relAll), q.rel.coq(cw))
+	}
+	return fmt.Sprintf("(Node %s %s %s %s %s %d %s %d %s %s)", logical, qb(q.anything), c08ctype(q.camli), qb(q.anycamli), perm, q.whole, size, q.refis, prefix, rel)
 }
 
 // the reference evaluator: the documented meaning of a constraint on the harness's facts
-func (q *qc) eval(b *c08blob) bool {
+func (q *qc) eval(cw *c08World, b *c08blob) bool {
 	n, ok := 0, true
 	cond := func(v bool) {
 		n++
@@ -478,13 +582,13 @@ func (q *qc) eval(b *c08blob) bool {
 	}
 	switch q.op {
 	case "and":
-		cond(q.a.eval(b) && q.b.eval(b))
+		cond(q.a.eval(cw, b) && q.b.eval(cw, b))
 	case "or":
-		cond(q.a.eval(b) || q.b.eval(b))
+		cond(q.a.eval(cw, b) || q.b.eval(cw, b))
 	case "xor":
-		cond(q.a.eval(b) != q.b.eval(b))
+		cond(q.a.eval(cw, b) != q.b.eval(cw, b))
 	case "not":
-		cond(!q.a.eval(b))
+		cond(!q.a.eval(cw, b))
 	}
 	if q.anything {
 		cond(true)
@@ -514,6 +618,25 @@ func (q *qc) eval(b *c08blob) bool {
 		}
 		if m && q.skipHidden && b.hidden {
 			m = false
+		}
+		if m && q.rel != nil {
+			related := cw.kids(b)
+			if q.relParent {
+				related = cw.parents(b)
+			}
+			good, bad := false, false
+			for _, r := range related {
+				if q.rel.eval(cw, r) {
+					good = true
+				} else {
+					bad = true
+				}
+			}
+			if q.relAll {
+				m = good && !bad
+			} else {
+				m = good
+			}
 		}
 		cond(m)
 	}
@@ -583,6 +706,17 @@ func genQC(c *ctx, cw *c08World, depth int) *qc {
 			if c.rng.Intn(12) == 0 {
 				q.skipHidden = true
 			}
+			if depth > 0 && c.rng.Intn(4) == 0 { // children-of / parents-of
+				q.rel = genQC(c, cw, 0)
+				if c.rng.Intn(3) == 0 {
+					q.rel = genQC(c, cw, 1)
+				}
+				q.relParent = c.rng.Intn(2) == 0
+				q.relAll = c.rng.Intn(3) == 0
+				if q.rel.rich() || q.rel.isEmpty() {
+					q.rel = &qc{perm: true, attr: "tag", val: []string{"x", "y", "z"}[c.rng.Intn(3)]}
+				}
+			}
 		case r < 17:
 			q.whole = 1 + c.rng.Intn(len(cw.wholes))
 			q.wholeRef = cw.wholes[q.whole-1]
@@ -637,7 +771,7 @@ var c08Sources = map[string]int{"corpus_permanode_lastmod": 1, "corpus_permanode
 
 func runC08(c *ctx) {
 	c.rep.Rule = "worlds of 4-12 permanodes (tags with several values, titles, camliNodeType possibly changed/deleted/claimed by another signer, dateCreated, hidden, deleted, claim-less), their claims, 2-5 files over 3 contents (shared wholeRefs), optionally a directory with its static-set, opaque blobs; " +
-		"random constraint trees of depth <= 3 over logical and/or/xor/not, anything, camliType, anyCamliType, blobSize, blobRefPrefix (complete / proper / absent), permanode{attr,value}, file{wholeRef}, multi-field structs, the empty struct, " +
+		"edges between permanodes (camliMember, camliPath:a/b; re-pointed paths leaving a stale edge before or after a live one between the same two permanodes, members removed again, another signer's edges); random constraint trees of depth <= 3 over logical and/or/xor/not, permanode{relation parent|child, any|all, sub-constraint}, anything, camliType, anyCamliType, blobSize, blobRefPrefix (complete / proper / absent), permanode{attr,value}, file{wholeRef}, multi-field structs, the empty struct, " +
 		"biased towards permanode-only conjunctions so that the typed/sorted candidate sources are planned (leaves numValue, skipHidden, fileName are checked against the reference evaluator only); " +
 		"every sort in {unspecified, unsorted, -mod, -created, blobref} x limits {-1,1,2,3,n-1,n,n+1}; non-trivial = distinct query with at least one match"
 	w, err := newWorld()
@@ -660,7 +794,7 @@ func runC08(c *ctx) {
 		for _, b := range cw.blobs {
 			byRef[b.ref] = b
 		}
-		for qi := 0; qi < c.n(60, 150); qi++ {
+		for qi := 0; qi < c.n(80, 170); qi++ {
 			q := genQC(c, cw, 1+c.rng.Intn(3))
 			nt := func(v string) *qc { return &qc{perm: true, attr: "camliNodeType", val: v} }
 			shapes := []*qc{
@@ -673,8 +807,22 @@ func runC08(c *ctx) {
 			shapes = append(shapes,
 				&qc{perm: true, attr: "camliNodeType", vmEquals: "foo", vmFold: true},
 				&qc{op: "or", a: nt("bar"), b: &qc{perm: true, attr: "camliNodeType", vmPrefix: "foo"}})
+			// the relation constraints, every world: children-of / parents-of x any / all x a few sub-constraints
+			for _, par := range []bool{false, true} {
+				for _, all := range []bool{false, true} {
+					for _, sub := range []*qc{{camli: "permanode"}, {perm: true, attr: "tag", val: "x"}, {perm: true, attr: "tag", val: "y"}, {perm: true, attr: "tag", val: "z"}, {anything: true}} {
+						shapes = append(shapes, &qc{perm: true, rel: sub, relParent: par, relAll: all})
+					}
+				}
+			}
+			if q.String() != "" && strings.Contains(q.String(), "relation{") {
+				c.count("relation constraints", "random")
+			}
 			if qi < len(shapes) {
 				q = shapes[qi]
+				if q.rel != nil {
+					c.count("relation constraints", "fixed shape")
+				}
 			} else if qi < 2*len(shapes) {
 				q = &qc{op: "and", a: shapes[qi-len(shapes)], b: &qc{camli: "permanode"}}
 			}
@@ -692,7 +840,7 @@ func runC08(c *ctx) {
 			sc := q.toSearch(cw)
 			var matches []*c08blob
 			for _, b := range cw.blobs {
-				if q.eval(b) {
+				if q.eval(cw, b) {
 					matches = append(matches, b)
 				}
 			}
